@@ -599,8 +599,12 @@ extern "C"
                 return;
             }
         }
-        // (2) any basic block outside every lock, at the counts the plan asks for
-        if (g.spec.nfine == 0 || g.held[self] != 0)
+        // (2) any basic block inside a call, at the counts the plan asks for.  Also while the container's
+        //     lock is held: clients that need the lock stay blocked, but a method that takes no lock can
+        //     then run in the middle of somebody else's critical section, as it can on real hardware.
+        //     Never while any other mutex is held (libstdc++'s debug mode takes pool mutexes, partly from
+        //     inside libstdc++.so where the simulator cannot see them: parking there would block for real).
+        if (g.spec.nfine == 0 || tls_in_call == 0 || g.held[self] != g.held_own[self])
             return;
         uint32_t n = g.fine_seen++;
         while (g.fine_next < g.spec.nfine && g.spec.fine[g.fine_next] < n)
